@@ -76,13 +76,18 @@ def handle (st : Unit) (j : Json) : Except String (Unit × Json) := do
         | "pipeline" =>
             pure (pipeline c keyed groups others pats, dedup (groups.flatten ++ others),
                   decide (Spec.HypPipeline c keyed groups others pats))
-        | "h" => pure (stageH c bypass others pats, dedup (bypass ++ others), true)
+        | "h" => pure (stageH c bypass others pats, dedup (bypass ++ others), bypass.isEmpty)
         | "none" => pure (stageNone others, dedup others, true)
         | _ => throw s!"unknown variant {variant}"
       let spec :=
         match variant with
         | "none" => base
-        | "h" => dedup bypass ++ Spec.filterSpec c ((dedup others).filter (fun e => !bypass.contains e)) pats
+        | "h" => Spec.filterSpec c base pats
+        | "pipeline" =>
+            -- the documented case-insensitive comparison concerns the indexed parents' children only
+            let g := dedup groups.flatten
+            Spec.filterSpec c g pats ++
+              Spec.filterSpec { c with ci := false } ((dedup others).filter (fun e => !g.contains e)) pats
         | _ => Spec.filterSpec c base pats
       pure (st, Json.mkObj [("out", ids (applyFilter f out)), ("spec", ids (applyFilter f spec)),
                             ("hyp", Json.bool hyp)])
